@@ -5,6 +5,7 @@ import (
 	"go/constant"
 	"go/token"
 	"go/types"
+	"os"
 	"reflect"
 	"sort"
 	"strings"
@@ -183,11 +184,50 @@ func checkAliasPairs(r *Report, p *Prog) {
 							ap = lfc.AP(iv)
 						}
 					}
-					if lf.C == rgU.top && (strings.Contains(ap, "."+sf.Name) && rootOfAddr(unwrapConv(lv)) == ssa.Value(ual) || strings.HasSuffix(ap, fu.AP(ual)+"."+sf.Name)) {
+					base := rootOfAddr(unwrapConv(lv))
+					if os.Getenv("SAMLVERIF_DEBUG") != "" {
+						fmt.Printf("DEBUG alias leaf %T %s base %T %s\n", lv, lv.Name(), base, base.Name())
+					}
+					for k := 0; k < 4; k++ {
+						// through the loads: a field read of the struct, and a pointer variable that holds the address of
+						// the shadow struct (aux := &decoded)
+						if pal, isA := base.(*ssa.Alloc); isA && base != ssa.Value(ual) {
+							if _, isPtrVar := pal.Type().Underlying().(*types.Pointer).Elem().Underlying().(*types.Pointer); isPtrVar {
+								if iv := initStore(pal); iv != nil {
+									base = rootOfAddr(iv)
+									continue
+								}
+							}
+							break
+						}
+						ld, isLd := base.(*ssa.UnOp)
+						if !isLd || ld.Op != token.MUL {
+							break
+						}
+						if pal, isA := ld.X.(*ssa.Alloc); isA {
+							iv := initStore(pal)
+							if iv == nil {
+								break
+							}
+							base = rootOfAddr(iv)
+							continue
+						}
+						nb := rootOfAddr(ld.X)
+						if nb == ssa.Value(ld) {
+							break
+						}
+						base = nb
+					}
+					if lf.C == rgU.top && (strings.Contains(ap, "."+sf.Name) && base == ssa.Value(ual) || strings.HasSuffix(ap, fu.AP(ual)+"."+sf.Name)) {
 						src = true
 					}
 				}
 				if !src {
+					if os.Getenv("SAMLVERIF_DEBUG") != "" {
+						for _, lf := range rgU.Origins(RV{V: st.Val, C: x.C}) {
+							fmt.Printf("DEBUG alias FAIL %s leaf %T %s top=%v ual=%s ap=%s\n", name, lf.V, lf.V.Name(), lf.C == rgU.top, ual.Name(), rgU.Ctx(au, lf.C).AP(lf.V))
+						}
+					}
 					why = "m." + sf.Name + " is assigned from " + xfc.AP(st.Val) + ", not from the decoded shadow field"
 					return
 				}
